@@ -188,6 +188,16 @@ func registerJSONStubs(e *Engine) {
 		bt := types.NewSlice(types.Typ[types.Uint8])
 		ret(st.doAppend(args[0].(Slice), st.strConst(strconv.Itoa(idx)), bt, types.Typ[types.String]))
 	}
+	// strconv.Atoi applied to exactly one integer ghost token returns the value the token names
+	// (documented inverse of the decimal formatter); on any other text the real function runs
+	e.intr["strconv.Atoi"] = func(st *State, fn *ssa.Function, args []Value, ret func(Value)) {
+		txt, ok := st.concreteBytes(args[0])
+		if g := st.ghostByText(txt, ""); ok && g != nil && g.kind == "int" {
+			ret(Tuple{g.val, Iface{}})
+			return
+		}
+		st.pushFrameClosure(Func{Fn: fn}, args, func(s *State, v Value) { ret(v) })
+	}
 	e.intr[jp+"f64toa"] = func(st *State, fn *ssa.Function, args []Value, ret func(Value)) {
 		bits := st.asT(args[1])
 		// non-finite doubles: the amd64 encoder writes nothing and reports 0 bytes
